@@ -1,5 +1,6 @@
 """C04 - container files are self-describing and round-trip under every codec /
 block size / stream kind."""
+import hashlib
 import io
 import os
 import tempfile
@@ -55,6 +56,10 @@ class C04(Check):
         yield dict(base, schema={"type": "record", "name": "R", "fields": [{"name": "a", "type": "long"}]}, records=[{"a": i} for i in range(300)], sync_interval=2, stream="seq-in")
         yield dict(base, schema="string", records=["abc", "defg"], sync_interval=4, codec="xz")  # first record exactly fills the interval
         yield dict(base, schema=["null", "int"], records=[], codec="bzip2")
+        # long-distance repetition inside one deflate block (back-references beyond 16 KiB)
+        big = hashlib.shake_256(b"verif").digest(20000)
+        yield dict(base, schema="bytes", records=[big, big, big], sync_interval=10**6, codec="deflate", codec2="deflate")
+        yield dict(base, schema="bytes", records=[big, big, big], sync_interval=10**6, codec="deflate", codec2="deflate", level=9)
 
     def _write(self, case, schema, interval, codec, metadata, stream):
         kw = {"codec": codec, "sync_interval": interval, "metadata": metadata}
